@@ -228,4 +228,114 @@ theorem C06_source_skeletons_2 :
     Gen.Skel.Server_streamLTX = Expected.Skel.Server_streamLTX :=
   ⟨rfl, rfl⟩
 
+/-! ### the byte-level engine model refines the abstract protocol model on position and log
+
+  The unbounded C01 / C06 theorems above are about `Protocol.deliver` on abstract nodes; the
+  correspondence suites compare real nodes with the byte-level engine model (`Engine.receiveLTX`
+  inside `Cluster.deliver`).  The two are connected here: whenever the engine model accepts a file
+  on the stream path, the protocol's acceptance rule holds for the abstracted node and file, and the
+  abstracted node moves exactly as `Protocol.deliver` moves it (position and log); what the file does
+  to the bytes is `C01_apply_bytes`.  A refusal by the position rule leaves the engine state as it
+  was, as `Protocol.deliver` leaves the abstract node. -/
+
+/-- header view of a transaction file (the image effect is kept abstract: `C01_apply_bytes`) -/
+def absFile (f : LTXFile) : AFile Unit :=
+  { min := f.minTxid, max := f.maxTxid, pre := f.pre, post := f.post, nodeID := f.nodeID, app := id }
+
+/-- position / log view of an engine-model node -/
+def absNode (ident : Nat) (s : Eng) : ANode Unit :=
+  { ident := ident, pos := (s.posTxid, s.posChk), img := (), log := s.ltx.map absFile }
+
+/-- engine accepts ⇒ protocol accepts, and both move the node to the same position and log -/
+theorem C06_engine_receive_refines_protocol (ident : Nat) (s s' : Eng) (f : LTXFile) (hinv : LogInv s)
+    (h : receiveLTX s f = .ok s') :
+    accepts (absNode ident s) (absFile f) = true ∧
+    (absNode ident s').pos = (f.maxTxid, f.post) ∧
+    (absNode ident s').log = (if f.minTxid = 1 then [absFile f] else (absNode ident s).log ++ [absFile f]) := by
+  unfold receiveLTX at h
+  cases hl : s.locks.tryAcquireWriteLock s.walMode with
+  | mk t oi =>
+    rw [hl] at h
+    cases oi with
+    | none => simp [fail] at h
+    | some i =>
+      simp only at h
+      cases hr1 : (do let s1 ← writeLTXFile { s with locks := t } f; applyLTX s1 f true : M Eng) with
+      | error e => rw [hr1] at h; simp [fail] at h
+      | ok s2 =>
+        rw [hr1] at h
+        simp only [pure, Except.pure] at h
+        injection h with h
+        subst h
+        obtain ⟨s1, hw, ha⟩ := M_bind_ok hr1
+        obtain ⟨hl2, hp1, hp2⟩ := applyLTX_frame s1 s2 f true ha
+        by_cases hs : f.minTxid = 1
+        · have hlog := C09.C09_writeLTX_snapshot { s with locks := t } s1 f hw hs
+          refine ⟨by simp [accepts, absFile, hs], by simp [absNode, hp1, hp2], ?_⟩
+          simp only [absNode, hs, if_true]
+          rw [hl2, hlog]; rfl
+        · obtain ⟨h1, h2, h3⟩ := C09.C09_writeLTX_extends { s with locks := t } s1 f hw hs
+          have hinv0 : LogInv { s with locks := t } := ⟨hinv.chain, hinv.ranges, hinv.last⟩
+          have happ := addLTX_append s.ltx f (hinv.below f h1)
+          refine ⟨?_, by simp [absNode, hp1, hp2], ?_⟩
+          · simp only [accepts, absFile, absNode, Bool.or_eq_true, beq_iff_eq, Bool.and_eq_true]
+            right
+            exact ⟨by simpa using h1.symm, by simpa using h2.symm⟩
+          · simp only [absNode, hs, if_false]
+            rw [hl2, h3]
+            show (addLTX s.ltx f).map absFile = s.ltx.map absFile ++ [absFile f]
+            rw [happ]; simp
+
+/-- engine refuses by the position rule ⇔ the protocol refuses; the engine state is what it was
+    (but for the lock bracket), like the abstract node -/
+theorem C06_engine_refusal_refines_protocol (ident : Nat) (s : Eng) (f : LTXFile) (hn : f.minTxid ≠ 1)
+    (hbad : f.minTxid ≠ s.posTxid + 1 ∨ f.pre ≠ s.posChk) :
+    accepts (absNode ident s) (absFile f) = false ∧ writeLTXFile s f = .error (s, .rejected) := by
+  refine ⟨?_, C09.C09_writeLTX_rejected_unchanged s f hn hbad⟩
+  simp only [accepts, absFile, absNode, Bool.or_eq_false_iff, beq_eq_false_iff_ne, ne_eq, Bool.and_eq_false_iff]
+  refine ⟨hn, ?_⟩
+  rcases hbad with h | h
+  · left; intro e; exact h e.symm
+  · right; intro e; exact h e.symm
+
+/-- a local commit of the engine model (rollback-journal or WAL) moves the abstracted node as
+    `Protocol.commit` does: one file `pos+1 .. pos+1` whose pre-checksum is the old position's
+    checksum and whose post-checksum is the new one, appended to the log -/
+theorem C06_engine_commit_refines_protocol (ident : Nat) (s s' : Eng) (hinv : LogInv s)
+    (h : (∃ mode, commitJournalValid s mode = .ok s') ∨ (commitWALBody s = .ok s' ∧ s' ≠ s)) :
+    ∃ f : LTXFile, f.minTxid = s.posTxid + 1 ∧ f.maxTxid = s.posTxid + 1 ∧ f.pre = s.posChk ∧ f.post = s'.posChk ∧
+      (absNode ident s').pos = (s.posTxid + 1, s'.posChk) ∧
+      (absNode ident s').log = (absNode ident s).log ++ [absFile f] := by
+  have key : ∃ f : LTXFile, s'.ltx = addLTX s.ltx f ∧ f.minTxid = s.posTxid + 1 ∧ f.maxTxid = s.posTxid + 1 ∧
+      f.pre = s.posChk ∧ f.post = s'.posChk ∧ s'.posTxid = s.posTxid + 1 := by
+    rcases h with ⟨mode, h⟩ | ⟨h, hne⟩
+    · obtain ⟨f, h1, h2, h3, h4, h5, h6, _⟩ := commitJournalValid_shape s s' mode h
+      exact ⟨f, h1, h2, h3, h4, h5, h6⟩
+    · rcases commitWAL_shape s s' h with e | ⟨f, h1, h2, h3, h4, h5, h6, _⟩
+      · exact absurd e hne
+      · exact ⟨f, h1, h2, h3, h4, h5, h6⟩
+  obtain ⟨f, h1, h2, h3, h4, h5, h6⟩ := key
+  have happ := addLTX_append s.ltx f (hinv.below f h2)
+  refine ⟨f, h2, h3, h4, h5, by simp [absNode, h6], ?_⟩
+  simp only [absNode]
+  rw [h1, happ]; simp
+
+/-- the own-file skip of `Cluster.deliver` (engine level) is the protocol's `skips` for every node
+    with a non-zero identity (identity 0 = "unset" never skips), and a skipped file changes nothing
+    but the creation of the database entry -/
+theorem C06_engine_skip_refines_protocol (self : Nat) (s : Eng) (f : LTXFile) (hs : self ≠ 0) (hdb : s.hasDB = true) :
+    (skips (absNode self s) (absFile f) = true ↔ (f.nodeID = self ∧ self ≠ 0 ∧ s.posTxid ≥ f.maxTxid)) ∧
+    (skips (absNode self s) (absFile f) = true → Cluster.deliver s self f = (s, true)) := by
+  have hiff : skips (absNode self s) (absFile f) = true ↔ (f.nodeID = self ∧ self ≠ 0 ∧ s.posTxid ≥ f.maxTxid) := by
+    simp only [skips, absNode, absFile, Bool.and_eq_true, beq_iff_eq]
+    constructor
+    · rintro ⟨a, b⟩; exact ⟨a, hs, of_decide_eq_true b⟩
+    · rintro ⟨a, _, b⟩; exact ⟨a, decide_eq_true b⟩
+  refine ⟨hiff, ?_⟩
+  intro h
+  have hc := hiff.mp h
+  unfold Cluster.deliver
+  simp only [hdb, if_true]
+  rw [if_pos hc]
+
 end LiteFSVerif.C06
